@@ -233,21 +233,24 @@ impl<T> Default for HashSet<T> {
 impl<T: Eq + Hash + Clone> BitAnd<&HashSet<T>> for &HashSet<T> {
     type Output = HashSet<T>;
     fn bitand(self, rhs: &HashSet<T>) -> HashSet<T> {
-        HashSet(self.0.bitand(&rhs.0))
+        // Collect into our own type: std's operator builds its result with `S::default()`, i.e. random keys
+        self.0.intersection(&rhs.0).cloned().collect()
     }
 }
 
 impl<T: Eq + Hash + Clone> BitOr<&HashSet<T>> for &HashSet<T> {
     type Output = HashSet<T>;
     fn bitor(self, rhs: &HashSet<T>) -> HashSet<T> {
-        HashSet(self.0.bitor(&rhs.0))
+        // Collect into our own type: std's operator builds its result with `S::default()`, i.e. random keys
+        self.0.union(&rhs.0).cloned().collect()
     }
 }
 
 impl<T: Eq + Hash + Clone> BitXor<&HashSet<T>> for &HashSet<T> {
     type Output = HashSet<T>;
     fn bitxor(self, rhs: &HashSet<T>) -> HashSet<T> {
-        HashSet(self.0.bitxor(&rhs.0))
+        // Collect into our own type: std's operator builds its result with `S::default()`, i.e. random keys
+        self.0.symmetric_difference(&rhs.0).cloned().collect()
     }
 }
 
@@ -304,7 +307,8 @@ impl<T: Eq + Hash> PartialEq for HashSet<T> {
 impl<T: Eq + Hash + Clone> Sub<&HashSet<T>> for &HashSet<T> {
     type Output = HashSet<T>;
     fn sub(self, rhs: &HashSet<T>) -> HashSet<T> {
-        HashSet(self.0.sub(&rhs.0))
+        // Collect into our own type: std's operator builds its result with `S::default()`, i.e. random keys
+        self.0.difference(&rhs.0).cloned().collect()
     }
 }
 
